@@ -954,6 +954,37 @@ func (t *tr) stmts(list []ast.Stmt, tail []string) []string {
 					t.bad(x, "result of a bank transfer not checked by the next statement")
 				}
 			}
+			// err = k.amm.AddToPoolBalanceAndUpdateLiquidity(ctx, ammPool, math.ZeroInt(), coins) ; if err != nil { return err } — a call made for
+			// its effect on another module's books, which may refuse: a free failure flag; in a function with Effects whose last argument is a
+			// coin set, the call is appended to the trace as (callee, second argument, amount) so that what it books can be compared with
+			// what was transferred; otherwise it is listed among the skipped calls with its arguments
+			if len(x.Lhs) == 1 && len(x.Rhs) == 1 && kindOf(t.typeOf(x.Lhs[0])) == kErr {
+				if c, ok := x.Rhs[0].(*ast.CallExpr); ok && !t.isSend(c) && i+1 < len(list) {
+					errId, isId := x.Lhs[0].(*ast.Ident)
+					is, isIf := list[i+1].(*ast.IfStmt)
+					rid := t.rootIdent(c.Fun)
+					rooted := false
+					if rid != nil {
+						if v, isVar := t.f.pkg.TypesInfo.Uses[rid].(*types.Var); isVar && kindOf(v.Type()) == kOpaque {
+							rooted = true
+						}
+					}
+					if isId && isIf && is.Init == nil && rooted && t.isErrCheck(is, errId.Name) {
+						if n := len(c.Args); t.f.spec.Effects && n >= 2 && kindOf(t.typeOf(c.Args[n-1])) == kCoins {
+							amt := t.expr(b, c.Args[n-1])
+							b.add(fmt.Sprintf("let %s := %s ++ [(%q, %q, %s)]", sendsVar, sendsVar, t.norm(c.Fun, 0), t.norm(c.Args[1], 0), amt))
+						} else {
+							t.f.skipped = append(t.f.skipped, t.norm(c, 0))
+						}
+						flag := t.freeResult(c, 0, kBool, "#err")
+						b.add("if " + flag + " then do")
+						b.add("  .error .badArgs")
+						b.add("else do")
+						b.lines = append(b.lines, indent(t.stmts(list[i+2:], tail), "  ")...)
+						return b.lines
+					}
+				}
+			}
 			// lps, _ := decCoins.TruncateDecimal()
 			if len(x.Lhs) == 2 && len(x.Rhs) == 1 {
 				if c, ok := x.Rhs[0].(*ast.CallExpr); ok {
@@ -1488,7 +1519,7 @@ func (t *tr) function() string {
 	if len(rts) == 0 {
 		rt = "Unit"
 	}
-	if len(rts) > 1 {
+	if len(rts) > 1 || strings.Contains(rt, " ") {
 		rt = "(" + rt + ")"
 	}
 	var out []string
